@@ -148,6 +148,9 @@ type sim struct {
 	panicked  *kit.BubblePanic // a panic of the code under test inside a stimulus (re-raised after clean-up)
 	deadStops []func()         // Stop calls of nodes that died inside a stimulus (may block forever)
 
+	quietCrit  bool // RunHistory (export.go): a logging.Crit ends the stimulus but is not reported by runSim
+	leftoverOK bool // RunHistory (export.go): a node died in a panic the caller has reported; blocked goroutines may remain
+
 	intents   map[common.Hash]*intent // what each submitted transaction asked for
 	cbChanged map[common.Address]int  // validator -> block in which an update naming a new reward address was applied
 	escrow    *big.Int                // Σ value detained by applied create/deposit/delegation-add transactions of the running period
@@ -213,7 +216,9 @@ func runSim(r *kit.Run, body func(s *sim)) {
 			s.crits = append(s.crits, line)
 			s.dead = true
 			r.Logf("CRIT %s", line)
-			r.Report("logging-crit", "the code under test called logging.Crit (process exit) at block %d: %s", len(s.blocks)+1, line)
+			if !s.quietCrit {
+				r.Report("logging-crit", "the code under test called logging.Crit (process exit) at block %d: %s", len(s.blocks)+1, line)
+			}
 			runtime.Goexit()
 		}
 		s.act = newActors(r.C)
@@ -238,7 +243,7 @@ func runSim(r *kit.Run, body func(s *sim)) {
 		}
 	})
 	if err != nil {
-		if len(s.crits) > 0 && strings.Contains(err.Error(), "deadlock") {
+		if (len(s.crits) > 0 || s.leftoverOK) && strings.Contains(err.Error(), "deadlock") {
 			return // goroutines of a node that died in Crit stay blocked on its locks
 		}
 		panic(fmt.Sprintf("stakechainworld: %v", err))
